@@ -74,200 +74,148 @@ def S2 (cfg : Cfg) (call : Call) (s : Disk) (j : Nat) : Disk := windows24 cfg ca
 /-- … after all windows and `m` `write_meta_data` calls -/
 def S3 (cfg : Cfg) (call : Call) (s : Disk) (m : Nat) : Disk := metas24 cfg.n m (S2 cfg call s (2 * nproc cfg))
 /-- … after all metadata and (when `compress`) `q` completed `compress_file` calls -/
-def S4 (cfg : Cfg) (call : Call) (s : Disk) (q : Nat) : Disk :=
-  if call.opts.compress then compress24 cfg call q (S3 cfg call s (2 * cfg.n)) else S3 cfg call s (2 * cfg.n)
+def S4 (cfg : Cfg) (ob : Obj) (call : Call) (s : Disk) (q : Nat) : Disk :=
+  if ob.opts.compress then compress24 cfg call q (S3 cfg call s (2 * cfg.n)) else S3 cfg call s (2 * cfg.n)
+/-- the object after `_prepare_files_NP24` -/
+def O1 (cfg : Cfg) (ob : Obj) (call : Call) (s : Disk) : Obj :=
+  { ob with alreadyExists := alreadyExists24 cfg.n call.overwrite s }
+/-- … after `check_NP24` (or after skipping it) -/
+def O2 (cfg : Cfg) (ob : Obj) (call : Call) (s : Disk) : Obj :=
+  { O1 cfg ob call s with checkCompleted := ob.checkCompleted || ob.opts.postCheck }
 
-/-- The ten ways `_process_NP24` ends, each with the disk it leaves. -/
-inductive Exit24 (cfg : Cfg) (call : Call) (s : Disk) : Disk × Result → Prop
-  | noOriginal : origReadable s = false → Exit24 cfg call s (s, .raised .noOriginal)
-  | alreadyExists : origReadable s = true → alreadyExists24 cfg.n call.overwrite s = true →
-      Exit24 cfg call s (S1 cfg call s, .ret 0)
-  | atSplit : origReadable s = true → alreadyExists24 cfg.n call.overwrite s = false →
+/-- The ways `_process_NP24` of the object `ob` ends, each with the disk and the object it leaves. -/
+inductive Exit24 (cfg : Cfg) (ob : Obj) (call : Call) (s : Disk) : Disk × Obj × Result → Prop
+  | alreadyExists : alreadyExists24 cfg.n call.overwrite s = true →
+      Exit24 cfg ob call s (S1 cfg call s, O1 cfg ob call s, .ret 0)
+  | crash : readCrashes ob = true → alreadyExists24 cfg.n call.overwrite s = false →
+      Exit24 cfg ob call s (S1 cfg call s, O1 cfg ob call s, .raised .crash)
+  | atSplit : readCrashes ob = false → alreadyExists24 cfg.n call.overwrite s = false →
       stopAt call.interrupt Point.splitIdx (2 * nproc cfg) < 2 * nproc cfg →
-      Exit24 cfg call s (S2 cfg call s (stopAt call.interrupt Point.splitIdx (2 * nproc cfg)), .raised .injected)
-  | atMeta : origReadable s = true → alreadyExists24 cfg.n call.overwrite s = false →
+      Exit24 cfg ob call s (S2 cfg call s (stopAt call.interrupt Point.splitIdx (2 * nproc cfg)), O1 cfg ob call s, .raised .injected)
+  | atMeta : readCrashes ob = false → alreadyExists24 cfg.n call.overwrite s = false →
       stopAt call.interrupt Point.metaIdx (2 * cfg.n) < 2 * cfg.n →
-      Exit24 cfg call s (S3 cfg call s (stopAt call.interrupt Point.metaIdx (2 * cfg.n)), .raised .injected)
-  | atVerify : origReadable s = true → alreadyExists24 cfg.n call.overwrite s = false →
-      call.opts.postCheck = true →
+      Exit24 cfg ob call s (S3 cfg call s (stopAt call.interrupt Point.metaIdx (2 * cfg.n)), O1 cfg ob call s, .raised .injected)
+  | atVerify : readCrashes ob = false → alreadyExists24 cfg.n call.overwrite s = false →
+      ob.opts.postCheck = true →
       stopAt call.interrupt Point.verifyIdx (verifyReads cfg call) < verifyReads cfg call →
-      Exit24 cfg call s (S3 cfg call s (2 * cfg.n), .raised .injected)
-  | verifyFails : origReadable s = true → alreadyExists24 cfg.n call.overwrite s = false →
-      call.opts.postCheck = true → splitDiffers cfg call = true →
-      Exit24 cfg call s (S3 cfg call s (2 * cfg.n), .raised .assertion)
-  | atCompress : origReadable s = true → alreadyExists24 cfg.n call.overwrite s = false →
-      (call.opts.postCheck = true → splitDiffers cfg call = false) → call.opts.compress = true →
+      Exit24 cfg ob call s (S3 cfg call s (2 * cfg.n), O1 cfg ob call s, .raised .injected)
+  | verifyFails : readCrashes ob = false → alreadyExists24 cfg.n call.overwrite s = false →
+      ob.opts.postCheck = true → splitDiffers cfg call = true →
+      Exit24 cfg ob call s (S3 cfg call s (2 * cfg.n), O1 cfg ob call s, .raised .assertion)
+  | atCompress : readCrashes ob = false → alreadyExists24 cfg.n call.overwrite s = false →
+      (ob.opts.postCheck = true → splitDiffers cfg call = false) → ob.opts.compress = true →
       stopAt call.interrupt Point.compressIdx (2 * cfg.n) < 2 * cfg.n →
-      Exit24 cfg call s (S4 cfg call s (stopAt call.interrupt Point.compressIdx (2 * cfg.n)), .raised .injected)
-  | atDelete : origReadable s = true → alreadyExists24 cfg.n call.overwrite s = false →
-      (call.opts.postCheck = true → splitDiffers cfg call = false) → call.opts.deleteOriginal = true →
+      Exit24 cfg ob call s (S4 cfg ob call s (stopAt call.interrupt Point.compressIdx (2 * cfg.n)), O2 cfg ob call s, .raised .injected)
+  | atDelete : readCrashes ob = false → alreadyExists24 cfg.n call.overwrite s = false →
+      (ob.opts.postCheck = true → splitDiffers cfg call = false) → ob.opts.deleteOriginal = true →
       call.interrupt = some .delete →
-      Exit24 cfg call s (S4 cfg call s (2 * cfg.n), .raised .injected)
-  | deleted : origReadable s = true → alreadyExists24 cfg.n call.overwrite s = false →
-      call.opts.postCheck = true → splitDiffers cfg call = false → call.opts.deleteOriginal = true →
-      Exit24 cfg call s ({ S4 cfg call s (2 * cfg.n) with orig := .absent }, .ret 1)
-  | kept : origReadable s = true → alreadyExists24 cfg.n call.overwrite s = false →
-      (call.opts.postCheck = true → splitDiffers cfg call = false) →
-      (call.opts.postCheck = false ∨ call.opts.deleteOriginal = false) →
-      Exit24 cfg call s (S4 cfg call s (2 * cfg.n), .ret 1)
+      Exit24 cfg ob call s (S4 cfg ob call s (2 * cfg.n), O2 cfg ob call s, .raised .injected)
+  | deleteMissing : readCrashes ob = false → alreadyExists24 cfg.n call.overwrite s = false →
+      ob.srClosed = true →
+      Exit24 cfg ob call s (S4 cfg ob call s (2 * cfg.n), O2 cfg ob call s, .raised .fileNotFound)
+  | deleted : readCrashes ob = false → alreadyExists24 cfg.n call.overwrite s = false →
+      (ob.checkCompleted || ob.opts.postCheck) = true → (ob.opts.postCheck = true → splitDiffers cfg call = false) →
+      ob.opts.deleteOriginal = true → ob.srClosed = false →
+      Exit24 cfg ob call s ({ S4 cfg ob call s (2 * cfg.n) with orig := .absent }, { O2 cfg ob call s with srClosed := true }, .ret 1)
+  | kept : readCrashes ob = false → alreadyExists24 cfg.n call.overwrite s = false →
+      (ob.opts.postCheck = true → splitDiffers cfg call = false) →
+      ((ob.checkCompleted || ob.opts.postCheck) = false ∨ ob.opts.deleteOriginal = false) →
+      Exit24 cfg ob call s (S4 cfg ob call s (2 * cfg.n), O2 cfg ob call s, .ret 1)
 
-theorem process24_exit (cfg : Cfg) (call : Call) (s : Disk) : Exit24 cfg call s (process24 cfg call s) := by
-  cases h0 : origReadable s
-  · have : process24 cfg call s = (s, .raised .noOriginal) := by simp [process24, h0]
-    rw [this]; exact .noOriginal h0
+theorem process24_exit (cfg : Cfg) (ob : Obj) (call : Call) (s : Disk) : Exit24 cfg ob call s (process24 cfg ob call s) := by
   cases h1 : alreadyExists24 cfg.n call.overwrite s
   case true =>
-    have : process24 cfg call s = (S1 cfg call s, .ret 0) := by simp [process24, h0, h1, S1]
-    rw [this]; exact .alreadyExists h0 h1
+    have : process24 cfg ob call s = (S1 cfg call s, O1 cfg ob call s, .ret 0) := by simp [process24, h1, S1, O1]
+    rw [this]; exact .alreadyExists h1
+  cases h0 : readCrashes ob
+  case true =>
+    have : process24 cfg ob call s = (S1 cfg call s, O1 cfg ob call s, .raised .crash) := by simp [process24, h1, h0, S1, O1]
+    rw [this]; exact .crash h0 h1
   rcases Nat.lt_or_ge (stopAt call.interrupt Point.splitIdx (2 * nproc cfg)) (2 * nproc cfg) with h2 | h2
-  · have : process24 cfg call s = (S2 cfg call s (stopAt call.interrupt Point.splitIdx (2 * nproc cfg)), .raised .injected) := by
-      simp [process24, h0, h1, h2, S1, S2]
+  · have : process24 cfg ob call s = (S2 cfg call s (stopAt call.interrupt Point.splitIdx (2 * nproc cfg)), O1 cfg ob call s, .raised .injected) := by
+      simp [process24, h0, h1, h2, S1, S2, O1]
     rw [this]; exact .atSplit h0 h1 h2
   have e2 : stopAt call.interrupt Point.splitIdx (2 * nproc cfg) = 2 * nproc cfg := by
     have := stopAt_le call.interrupt Point.splitIdx (2 * nproc cfg); omega
   rcases Nat.lt_or_ge (stopAt call.interrupt Point.metaIdx (2 * cfg.n)) (2 * cfg.n) with h3 | h3
-  · have : process24 cfg call s = (S3 cfg call s (stopAt call.interrupt Point.metaIdx (2 * cfg.n)), .raised .injected) := by
-      simp [process24, h0, h1, h3, S1, S2, S3, e2]
+  · have : process24 cfg ob call s = (S3 cfg call s (stopAt call.interrupt Point.metaIdx (2 * cfg.n)), O1 cfg ob call s, .raised .injected) := by
+      simp [process24, h0, h1, h3, S1, S2, S3, e2, O1]
     rw [this]; exact .atMeta h0 h1 h3
   have e3 : stopAt call.interrupt Point.metaIdx (2 * cfg.n) = 2 * cfg.n := by
     have := stopAt_le call.interrupt Point.metaIdx (2 * cfg.n); omega
-  cases hv : (call.opts.postCheck && decide (stopAt call.interrupt Point.verifyIdx (verifyReads cfg call) < verifyReads cfg call))
+  cases hv : (ob.opts.postCheck && decide (stopAt call.interrupt Point.verifyIdx (verifyReads cfg call) < verifyReads cfg call))
   case true =>
-    have : process24 cfg call s = (S3 cfg call s (2 * cfg.n), .raised .injected) := by
-      simp only [process24, h0, h1, S1, S2, S3, e2, e3, hv]; simp
+    have : process24 cfg ob call s = (S3 cfg call s (2 * cfg.n), O1 cfg ob call s, .raised .injected) := by
+      simp only [process24, h0, h1, S1, S2, S3, e2, e3, hv, O1]; simp
     rw [this]; simp at hv; exact .atVerify h0 h1 hv.1 hv.2
-  cases hd : (call.opts.postCheck && splitDiffers cfg call)
+  cases hd : (ob.opts.postCheck && splitDiffers cfg call)
   case true =>
-    have : process24 cfg call s = (S3 cfg call s (2 * cfg.n), .raised .assertion) := by
-      simp only [process24, h0, h1, S1, S2, S3, e2, e3, hv, hd]; simp
+    have : process24 cfg ob call s = (S3 cfg call s (2 * cfg.n), O1 cfg ob call s, .raised .assertion) := by
+      simp only [process24, h0, h1, S1, S2, S3, e2, e3, hv, hd, O1]; simp
     rw [this]; simp at hd; exact .verifyFails h0 h1 hd.1 hd.2
-  have hchk : call.opts.postCheck = true → splitDiffers cfg call = false := by
+  have hchk : ob.opts.postCheck = true → splitDiffers cfg call = false := by
     intro h; simpa [h] using hd
-  cases hc : (call.opts.compress && decide (stopAt call.interrupt Point.compressIdx (2 * cfg.n) < 2 * cfg.n))
+  cases hc : (ob.opts.compress && decide (stopAt call.interrupt Point.compressIdx (2 * cfg.n) < 2 * cfg.n))
   case true =>
-    have : process24 cfg call s = (S4 cfg call s (stopAt call.interrupt Point.compressIdx (2 * cfg.n)), .raised .injected) := by
-      simp only [process24, h0, h1, S1, S2, S3, S4, e2, e3, hv, hd, hc]; simp
+    have : process24 cfg ob call s = (S4 cfg ob call s (stopAt call.interrupt Point.compressIdx (2 * cfg.n)), O2 cfg ob call s, .raised .injected) := by
+      simp only [process24, h0, h1, S1, S2, S3, S4, e2, e3, hv, hd, hc, O1, O2]; simp
     rw [this]; simp at hc; exact .atCompress h0 h1 hchk hc.1 hc.2
-  have e4 : (if call.opts.compress = true then compress24 cfg call (stopAt call.interrupt Point.compressIdx (2 * cfg.n)) (S3 cfg call s (2 * cfg.n))
-      else S3 cfg call s (2 * cfg.n)) = S4 cfg call s (2 * cfg.n) := by
+  have e4 : (if ob.opts.compress = true then compress24 cfg call (stopAt call.interrupt Point.compressIdx (2 * cfg.n)) (S3 cfg call s (2 * cfg.n))
+      else S3 cfg call s (2 * cfg.n)) = S4 cfg ob call s (2 * cfg.n) := by
     unfold S4
-    cases hcp : call.opts.compress
+    cases hcp : ob.opts.compress
     · simp
     · have := stopAt_le call.interrupt Point.compressIdx (2 * cfg.n)
       simp [hcp] at hc
       have : stopAt call.interrupt Point.compressIdx (2 * cfg.n) = 2 * cfg.n := by omega
       simp [this]
-  have base : process24 cfg call s =
-      (if call.opts.deleteOriginal = true then
-        if call.interrupt = some .delete then (S4 cfg call s (2 * cfg.n), .raised .injected) else
-        if (call.opts.postCheck && call.opts.deleteOriginal) = true then
-          ({ S4 cfg call s (2 * cfg.n) with orig := .absent }, .ret 1) else (S4 cfg call s (2 * cfg.n), .ret 1)
-      else (S4 cfg call s (2 * cfg.n), .ret 1)) := by
+  have base : process24 cfg ob call s =
+      (if ob.opts.deleteOriginal = true then
+        if call.interrupt = some .delete then (S4 cfg ob call s (2 * cfg.n), O2 cfg ob call s, .raised .injected) else
+        if ((ob.checkCompleted || ob.opts.postCheck) && ob.opts.deleteOriginal) = true then
+          if ob.srClosed = true then (S4 cfg ob call s (2 * cfg.n), O2 cfg ob call s, .raised .fileNotFound)
+          else ({ S4 cfg ob call s (2 * cfg.n) with orig := .absent }, { O2 cfg ob call s with srClosed := true }, .ret 1)
+        else (S4 cfg ob call s (2 * cfg.n), O2 cfg ob call s, .ret 1)
+      else (S4 cfg ob call s (2 * cfg.n), O2 cfg ob call s, .ret 1)) := by
     simp only [process24, h0, h1, e2, e3, hv, hd, hc]
     simp only [S1, S2, S3] at e4
-    simp [e4]
+    simp [e4, O1, O2, h1]
   rw [base]
-  cases hdel : call.opts.deleteOriginal
+  cases hdel : ob.opts.deleteOriginal
   · simp; exact .kept h0 h1 hchk (Or.inr hdel)
   by_cases hint : call.interrupt = some .delete
   · simp [hint]; exact .atDelete h0 h1 hchk hdel hint
-  cases hpc : call.opts.postCheck
-  · simp [hint]; exact .kept h0 h1 hchk (Or.inl hpc)
-  · simp [hint]; exact .deleted h0 h1 hpc (hchk hpc) hdel
-
-/-- NP2.1: disk after `j` `_split2shanks` calls (the lf file was opened by `_prepare_files_NP21`) -/
-def T2 (cfg : Cfg) (s : Disk) (j : Nat) : Disk :=
-  { s with lf := { s.lf with bin := written (nproc cfg) j (.good cfg.c) true } }
-/-- … after all windows and `m` `write_meta_data` calls -/
-def T3 (cfg : Cfg) (s : Disk) (m : Nat) : Disk :=
-  { T2 cfg s (nproc cfg) with lf := { (T2 cfg s (nproc cfg)).lf with md := (T2 cfg s (nproc cfg)).lf.md || decide (0 < m) } }
-/-- number of `compress_file` calls of `compress_NP21` -/
-def ncall21 (s : Disk) : Nat := if s.orig = .bin then 2 else 1
-/-- … after the metadata and `q` completed `compress_file` calls -/
-def T5 (cfg : Cfg) (call : Call) (s : Disk) (q : Nat) : Disk :=
-  let s4 : Disk :=
-    if s.orig = .bin then
-      if 0 < q then { T3 cfg s 1 with orig := .cbin, och := true, otmp := false } else { T3 cfg s 1 with otmp := true }
-    else T3 cfg s 1
-  { s4 with lf := compressFileSet call.overwrite (.good cfg.c) (ncall21 s - 1) q s4.lf }
-
-/-- The seven ways `_process_NP21` ends. -/
-inductive Exit21 (cfg : Cfg) (call : Call) (s : Disk) : Disk × Result → Prop
-  | noOriginal : origReadable s = false → Exit21 cfg call s (s, .raised .noOriginal)
-  | alreadyExists : origReadable s = true → lfExists s = true → call.overwrite = false → Exit21 cfg call s (s, .ret 0)
-  | atSplit : origReadable s = true → (lfExists s = false ∨ call.overwrite = true) →
-      stopAt call.interrupt Point.splitIdx (nproc cfg) < nproc cfg →
-      Exit21 cfg call s (T2 cfg s (stopAt call.interrupt Point.splitIdx (nproc cfg)), .raised .injected)
-  | atMeta : origReadable s = true → (lfExists s = false ∨ call.overwrite = true) →
-      stopAt call.interrupt Point.metaIdx 1 < 1 →
-      Exit21 cfg call s (T3 cfg s 0, .raised .injected)
-  | plain : origReadable s = true → (lfExists s = false ∨ call.overwrite = true) → call.opts.compress = false →
-      Exit21 cfg call s (T3 cfg s 1, .ret 1)
-  | atCompress : origReadable s = true → (lfExists s = false ∨ call.overwrite = true) → call.opts.compress = true →
-      stopAt call.interrupt Point.compressIdx (ncall21 s) < ncall21 s →
-      Exit21 cfg call s (T5 cfg call s (stopAt call.interrupt Point.compressIdx (ncall21 s)), .raised .injected)
-  | compressed : origReadable s = true → (lfExists s = false ∨ call.overwrite = true) → call.opts.compress = true →
-      Exit21 cfg call s (T5 cfg call s (ncall21 s), .ret 1)
-
-theorem process21_exit (cfg : Cfg) (call : Call) (s : Disk) : Exit21 cfg call s (process21 cfg call s) := by
-  cases h0 : origReadable s
-  · have : process21 cfg call s = (s, .raised .noOriginal) := by simp [process21, h0]
-    rw [this]; exact .noOriginal h0
-  cases h1 : (lfExists s && !call.overwrite)
-  case true =>
-    have : process21 cfg call s = (s, .ret 0) := by simp only [process21, h0, h1]; simp
-    rw [this]; simp at h1; exact .alreadyExists h0 h1.1 h1.2
-  have h1' : lfExists s = false ∨ call.overwrite = true := by
-    cases hl : lfExists s <;> cases ho : call.overwrite <;> simp [hl, ho] at h1 ⊢
-  rcases Nat.lt_or_ge (stopAt call.interrupt Point.splitIdx (nproc cfg)) (nproc cfg) with h2 | h2
-  · have : process21 cfg call s = (T2 cfg s (stopAt call.interrupt Point.splitIdx (nproc cfg)), .raised .injected) := by
-      simp only [process21, h0, h1, T2]; simp [h2]
-    rw [this]; exact .atSplit h0 h1' h2
-  have e2 : stopAt call.interrupt Point.splitIdx (nproc cfg) = nproc cfg := by
-    have := stopAt_le call.interrupt Point.splitIdx (nproc cfg); omega
-  rcases Nat.lt_or_ge (stopAt call.interrupt Point.metaIdx 1) 1 with h3 | h3
-  · have e3 : stopAt call.interrupt Point.metaIdx 1 = 0 := by omega
-    have : process21 cfg call s = (T3 cfg s 0, .raised .injected) := by
-      simp only [process21, h0, h1, T2, T3, e2, e3]; simp
-    rw [this]; exact .atMeta h0 h1' h3
-  have e3 : stopAt call.interrupt Point.metaIdx 1 = 1 := by
-    have := stopAt_le call.interrupt Point.metaIdx 1; omega
-  cases hc : call.opts.compress
-  · have : process21 cfg call s = (T3 cfg s 1, .ret 1) := by
-      simp only [process21, h0, h1, T2, T3, e2, e3, hc]; simp
-    rw [this]; exact .plain h0 h1' hc
-  rcases Nat.lt_or_ge (stopAt call.interrupt Point.compressIdx (ncall21 s)) (ncall21 s) with h4 | h4
-  · have : process21 cfg call s = (T5 cfg call s (stopAt call.interrupt Point.compressIdx (ncall21 s)), .raised .injected) := by
-      simp only [process21, h0, h1, T2, T3, T5, ncall21, e2, e3, hc] at h4 ⊢; simp [h4]
-    rw [this]; exact .atCompress h0 h1' hc h4
-  have e4 : stopAt call.interrupt Point.compressIdx (ncall21 s) = ncall21 s := by
-    have := stopAt_le call.interrupt Point.compressIdx (ncall21 s); omega
-  have : process21 cfg call s = (T5 cfg call s (ncall21 s), .ret 1) := by
-    simp only [ncall21] at e4
-    simp only [process21, h0, h1, T2, T3, T5, ncall21, e2, e3, hc, e4]; simp
-  rw [this]; exact .compressed h0 h1' hc
-
+  cases hcc : (ob.checkCompleted || ob.opts.postCheck)
+  · simp [hint]; exact .kept h0 h1 hchk (Or.inl hcc)
+  · cases hcl : ob.srClosed
+    · simp [hint]; exact .deleted h0 h1 hcc hchk hdel hcl
+    · simp [hint]; exact .deleteMissing h0 h1 hcl
 
 @[simp] theorem origReadable_S1 (cfg call s) : origReadable (S1 cfg call s) = origReadable s := rfl
 @[simp] theorem origReadable_S2 (cfg call s j) : origReadable (S2 cfg call s j) = origReadable s := rfl
 @[simp] theorem origReadable_S3 (cfg call s m) : origReadable (S3 cfg call s m) = origReadable s := rfl
-@[simp] theorem origReadable_S4 (cfg call s q) : origReadable (S4 cfg call s q) = origReadable s := by
+@[simp] theorem origReadable_S4 (cfg ob call s q) : origReadable (S4 cfg ob call s q) = origReadable s := by
+  unfold S4; split <;> rfl
+@[simp] theorem orig_S1 (cfg call s) : (S1 cfg call s).orig = s.orig := rfl
+@[simp] theorem orig_S2 (cfg call s j) : (S2 cfg call s j).orig = s.orig := rfl
+@[simp] theorem orig_S3 (cfg call s m) : (S3 cfg call s m).orig = s.orig := rfl
+@[simp] theorem orig_S4 (cfg ob call s q) : (S4 cfg ob call s q).orig = s.orig := by
   unfold S4; split <;> rfl
 
-theorem S4_shank_complete (cfg : Cfg) (call : Call) (s : Disk) (i : Nat) (hi : i < cfg.n) :
-    ∃ sh, (S4 cfg call s (2 * cfg.n)).shanks i = some sh ∧
-      FilesComplete call.opts.compress (apData cfg call i) sh.ap ∧ FilesComplete call.opts.compress (.good cfg.c) sh.lf := by
-  have := full24_shank cfg call s i hi call.opts.compress
+theorem S4_shank_complete (cfg : Cfg) (ob : Obj) (call : Call) (s : Disk) (i : Nat) (hi : i < cfg.n) :
+    ∃ sh, (S4 cfg ob call s (2 * cfg.n)).shanks i = some sh ∧
+      FilesComplete ob.opts.compress (apData cfg call i) sh.ap ∧ FilesComplete ob.opts.compress (.good cfg.c) sh.lf := by
+  have := full24_shank cfg call s i hi ob.opts.compress
   simpa [S4, S3, S2, S1] using this
 
-theorem S4_shank_complete_good (cfg : Cfg) (call : Call) (s : Disk) (hd : splitDiffers cfg call = false) (i : Nat) (hi : i < cfg.n) :
-    ∃ sh, (S4 cfg call s (2 * cfg.n)).shanks i = some sh ∧
-      FilesComplete call.opts.compress (.good cfg.c) sh.ap ∧ FilesComplete call.opts.compress (.good cfg.c) sh.lf := by
-  obtain ⟨sh, h1, h2, h3⟩ := S4_shank_complete cfg call s i hi
+theorem S4_shank_complete_good (cfg : Cfg) (ob : Obj) (call : Call) (s : Disk) (hd : splitDiffers cfg call = false)
+    (i : Nat) (hi : i < cfg.n) :
+    ∃ sh, (S4 cfg ob call s (2 * cfg.n)).shanks i = some sh ∧
+      FilesComplete ob.opts.compress (.good cfg.c) sh.ap ∧ FilesComplete ob.opts.compress (.good cfg.c) sh.lf := by
+  obtain ⟨sh, h1, h2, h3⟩ := S4_shank_complete cfg ob call s i hi
   rw [apData_good cfg call i ((splitDiffers_false_iff cfg call).mp hd i hi)] at h2
   exact ⟨sh, h1, h2, h3⟩
 
-/-- every exit of `_process_NP24` other than "no original" leaves all expected folders behind -/
 theorem S1_isSome (cfg call s i) (hi : i < cfg.n) : ((S1 cfg call s).shanks i).isSome = true := by
   obtain ⟨sh, h⟩ := prepShank_isSome call.overwrite (s.shanks i)
   simp [S1, prepare24, hi, h]
@@ -277,48 +225,11 @@ theorem S2_isSome (cfg call s j i) (hi : i < cfg.n) : ((S2 cfg call s j).shanks 
 theorem S3_isSome (cfg call s m i) (hi : i < cfg.n) : ((S3 cfg call s m).shanks i).isSome = true := by
   have := S2_isSome cfg call s (2 * nproc cfg) i hi
   simp [S3, metas24, hi, this]
-theorem S4_isSome (cfg call s q i) (hi : i < cfg.n) : ((S4 cfg call s q).shanks i).isSome = true := by
+theorem S4_isSome (cfg ob call s q i) (hi : i < cfg.n) : ((S4 cfg ob call s q).shanks i).isSome = true := by
   have := S3_isSome cfg call s (2 * cfg.n) i hi
   unfold S4; split
   · simp [compress24, hi, this]
   · exact this
-
-theorem process24_recoverable (cfg : Cfg) (call : Call) (s : Disk) (hk : cfg.kind = .np24) (hn : 0 < cfg.n)
-    (h : Recoverable cfg s) : Recoverable cfg (process24 cfg call s).1 := by
-  have e := process24_exit cfg call s
-  generalize process24 cfg call s = r at e
-  cases e with
-  | noOriginal _ => exact h
-  | deleted h0 h1 hpc hd hdel =>
-    right
-    refine ⟨hk, hn, fun i hi => ?_⟩
-    obtain ⟨sh, a, b, _⟩ := S4_shank_complete_good cfg call s hd i hi
-    exact ⟨sh, a, b.holds.1, b.holds.2⟩
-  | _ => left; simp [OrigHolds, *]
-
-/-- the original is removed by `_process_NP24` only in the `deleted` exit -/
-theorem process24_delete (cfg : Cfg) (call : Call) (s : Disk) (h0 : OrigHolds s)
-    (h1 : ¬ OrigHolds (process24 cfg call s).1) :
-    call.opts.postCheck = true ∧ call.opts.deleteOriginal = true ∧ (∀ i, i < cfg.n → altered cfg call i = false) ∧
-    (process24 cfg call s).2 = .ret 1 ∧
-    ∀ i, i < cfg.n → ∃ sh, (process24 cfg call s).1.shanks i = some sh ∧
-      FilesComplete call.opts.compress (.good cfg.c) sh.ap ∧ FilesComplete call.opts.compress (.good cfg.c) sh.lf := by
-  have e := process24_exit cfg call s
-  generalize process24 cfg call s = r at e h1
-  cases e with
-  | deleted _ _ hpc hd hdel =>
-    exact ⟨hpc, hdel, (splitDiffers_false_iff cfg call).mp hd, rfl, fun i hi => S4_shank_complete_good cfg call s hd i hi⟩
-  | noOriginal _ => exact absurd h0 h1
-  | _ => exfalso; apply h1; simp [OrigHolds, *]
-
-theorem process24_raised (cfg : Cfg) (call : Call) (s : Disk) (h0 : OrigHolds s) (e : Err)
-    (h1 : (process24 cfg call s).2 = .raised e) : OrigHolds (process24 cfg call s).1 := by
-  have ex := process24_exit cfg call s
-  generalize process24 cfg call s = r at ex h1
-  cases ex with
-  | deleted => simp at h1
-  | noOriginal _ => exact h0
-  | _ => simp [OrigHolds, *]
 
 theorem prepare24_noop (n : Nat) (s : Disk) (h : ∀ i, i < n → (s.shanks i).isSome = true) :
     prepare24 n false s = s := by
@@ -335,98 +246,232 @@ theorem prepare24_noop (n : Nat) (s : Disk) (h : ∀ i, i < n → (s.shanks i).i
       | some sh => simp [prepShank]
     · rfl
 
-theorem process24_rerun_noop (cfg : Cfg) (call : Call) (s : Disk) (h0 : OrigHolds s) (hn : 0 < cfg.n)
+/-- `check_completed` implies `post_check` stays true of the object -/
+def FlagOk (ob : Obj) : Prop := ob.checkCompleted = true → ob.opts.postCheck = true
+
+/-- the original is untouched by `_process_NP24` except in the `deleted` exit, which needs a passed verification -/
+theorem process24_orig (cfg : Cfg) (ob : Obj) (call : Call) (s : Disk) (hf : FlagOk ob) :
+    ((process24 cfg ob call s).1.orig = s.orig ∧ (process24 cfg ob call s).1.och = s.och ∧
+      (process24 cfg ob call s).2.1.srClosed = ob.srClosed) ∨
+    (ob.opts.postCheck = true ∧ ob.opts.deleteOriginal = true ∧ splitDiffers cfg call = false ∧ ob.srClosed = false ∧
+      (process24 cfg ob call s).2.2 = .ret 1 ∧ (process24 cfg ob call s).1.orig = .absent ∧
+      (process24 cfg ob call s).2.1.srClosed = true ∧
+      ∀ i, i < cfg.n → ∃ sh, (process24 cfg ob call s).1.shanks i = some sh ∧
+        FilesComplete ob.opts.compress (.good cfg.c) sh.ap ∧ FilesComplete ob.opts.compress (.good cfg.c) sh.lf) := by
+  have e := process24_exit cfg ob call s
+  generalize process24 cfg ob call s = r at e
+  cases e with
+  | deleted _ _ hcc hchk hdel hcl =>
+    right
+    have hpc : ob.opts.postCheck = true := by
+      cases h : ob.checkCompleted
+      · simpa [h] using hcc
+      · exact hf h
+    exact ⟨hpc, hdel, hchk hpc, hcl, rfl, rfl, rfl, fun i hi => S4_shank_complete_good cfg ob call s (hchk hpc) i hi⟩
+  | _ => left; refine ⟨by simp, ?_, rfl⟩ <;> first | rfl | (simp only [S4]; split <;> rfl)
+
+theorem process24_flagOk (cfg : Cfg) (ob : Obj) (call : Call) (s : Disk) (hf : FlagOk ob) :
+    FlagOk (process24 cfg ob call s).2.1 ∧ (process24 cfg ob call s).2.1.opts = ob.opts ∧
+    (process24 cfg ob call s).2.1.onShank = ob.onShank ∧ (process24 cfg ob call s).2.1.srForm = ob.srForm ∧
+    (process24 cfg ob call s).2.1.srSorted = ob.srSorted := by
+  have e := process24_exit cfg ob call s
+  generalize process24 cfg ob call s = r at e
+  cases e <;> refine ⟨?_, rfl, rfl, rfl, rfl⟩ <;> intro h <;>
+    first
+    | exact hf h
+    | (simp only [O2, O1, Bool.or_eq_true] at h; rcases h with h | h; exact hf h; exact h)
+
+theorem process24_raised (cfg : Cfg) (ob : Obj) (call : Call) (s : Disk) (e : Err)
+    (h1 : (process24 cfg ob call s).2.2 = .raised e) :
+    (process24 cfg ob call s).1.orig = s.orig ∧ (process24 cfg ob call s).1.och = s.och := by
+  have ex := process24_exit cfg ob call s
+  generalize process24 cfg ob call s = r at ex h1
+  cases ex with
+  | deleted => simp at h1
+  | _ => refine ⟨by simp, ?_⟩ <;> first | rfl | (simp only [S4]; split <;> rfl)
+
+theorem process24_rerun_noop (cfg : Cfg) (ob : Obj) (call : Call) (s : Disk) (hn : 0 < cfg.n)
     (he : ∀ i, i < cfg.n → (s.shanks i).isSome = true) (hw : call.overwrite = false) :
-    process24 cfg call s = (s, .ret 0) := by
+    (process24 cfg ob call s).1 = s ∧ (process24 cfg ob call s).2.2 = .ret 0 := by
   have hae : alreadyExists24 cfg.n call.overwrite s = true := by
     simp only [alreadyExists24, hw, Bool.not_false, Bool.true_and, List.any_eq_true, List.mem_range]
     exact ⟨0, hn, he 0 hn⟩
-  have h0' : origReadable s = true := h0
-  have : process24 cfg call s = (prepare24 cfg.n call.overwrite s, .ret 0) := by simp [process24, h0', hae]
-  rw [this, hw, prepare24_noop cfg.n s he]
+  have : process24 cfg ob call s = (prepare24 cfg.n call.overwrite s, O1 cfg ob call s, .ret 0) := by
+    simp [process24, hae, O1]
+  rw [this, hw, prepare24_noop cfg.n s he]; exact ⟨rfl, rfl⟩
 
-theorem process24_creates_output (cfg : Cfg) (call : Call) (s : Disk) (h0 : OrigHolds s) (i : Nat) (hi : i < cfg.n) :
-    ((process24 cfg call s).1.shanks i).isSome = true := by
-  have ex := process24_exit cfg call s
-  generalize process24 cfg call s = r at ex
-  have h0' : origReadable s = true := h0
+theorem process24_creates_output (cfg : Cfg) (ob : Obj) (call : Call) (s : Disk) (i : Nat) (hi : i < cfg.n) :
+    ((process24 cfg ob call s).1.shanks i).isSome = true := by
+  have ex := process24_exit cfg ob call s
+  generalize process24 cfg ob call s = r at ex
   cases ex with
-  | noOriginal h => simp [h] at h0'
   | alreadyExists => exact S1_isSome cfg call s i hi
+  | crash => exact S1_isSome cfg call s i hi
   | atSplit => exact S2_isSome cfg call s _ i hi
   | atMeta => exact S3_isSome cfg call s _ i hi
   | atVerify => exact S3_isSome cfg call s _ i hi
   | verifyFails => exact S3_isSome cfg call s _ i hi
-  | atCompress => exact S4_isSome cfg call s _ i hi
-  | atDelete => exact S4_isSome cfg call s _ i hi
-  | deleted => exact S4_isSome cfg call s _ i hi
-  | kept => exact S4_isSome cfg call s _ i hi
+  | atCompress => exact S4_isSome cfg ob call s _ i hi
+  | atDelete => exact S4_isSome cfg ob call s _ i hi
+  | deleteMissing => exact S4_isSome cfg ob call s _ i hi
+  | deleted => exact S4_isSome cfg ob call s _ i hi
+  | kept => exact S4_isSome cfg ob call s _ i hi
 
-/-- an uninterrupted faithful NP2.4 run that passes the existence test ends complete -/
-theorem process24_completes (cfg : Cfg) (call : Call) (s : Disk) (h0 : OrigHolds s)
+/-- an uninterrupted faithful NP2.4 run of an object with a live reader that passes the existence test ends complete -/
+theorem process24_completes (cfg : Cfg) (ob : Obj) (call : Call) (s : Disk) (hcl : ob.srClosed = false)
     (hae : alreadyExists24 cfg.n call.overwrite s = false) (hf : NoFault cfg call) :
-    (process24 cfg call s).2 = .ret 1 ∧
-    (∀ i, i < cfg.n → ∃ sh, (process24 cfg call s).1.shanks i = some sh ∧
-      FilesComplete call.opts.compress (.good cfg.c) sh.ap ∧ FilesComplete call.opts.compress (.good cfg.c) sh.lf) ∧
-    (OrigHolds (process24 cfg call s).1 ∨ (call.opts.postCheck = true ∧ call.opts.deleteOriginal = true)) := by
-  have ex := process24_exit cfg call s
-  generalize process24 cfg call s = r at ex
-  have h0' : origReadable s = true := h0
+    (process24 cfg ob call s).2.2 = .ret 1 ∧
+    (∀ i, i < cfg.n → ∃ sh, (process24 cfg ob call s).1.shanks i = some sh ∧
+      FilesComplete ob.opts.compress (.good cfg.c) sh.ap ∧ FilesComplete ob.opts.compress (.good cfg.c) sh.lf) ∧
+    (((process24 cfg ob call s).1.orig = s.orig ∧ (process24 cfg ob call s).1.och = s.och) ∨
+      ((ob.checkCompleted || ob.opts.postCheck) = true ∧ ob.opts.deleteOriginal = true)) := by
+  have ex := process24_exit cfg ob call s
+  generalize process24 cfg ob call s = r at ex
   have hd : splitDiffers cfg call = false := (splitDiffers_false_iff cfg call).mpr hf.2
   have hi := hf.1
+  have hrc : readCrashes ob = false := by simp [readCrashes, hcl]
   cases ex with
-  | noOriginal h => simp [h] at h0'
-  | alreadyExists _ h => simp [h] at hae
+  | alreadyExists h => simp [h] at hae
+  | crash h => simp [h] at hrc
   | atSplit _ _ h => simp [hi] at h
   | atMeta _ _ h => simp [hi] at h
   | atVerify _ _ _ h => simp [hi] at h
   | verifyFails _ _ _ h => simp [hd] at h
   | atCompress _ _ _ _ h => simp [hi] at h
   | atDelete _ _ _ _ h => simp [hi] at h
-  | deleted _ _ hpc _ hdel =>
-    exact ⟨rfl, fun i hi => S4_shank_complete_good cfg call s hd i hi, Or.inr ⟨hpc, hdel⟩⟩
+  | deleteMissing _ _ h => simp [hcl] at h
+  | deleted _ _ hcc _ hdel =>
+    exact ⟨rfl, fun i hi => S4_shank_complete_good cfg ob call s hd i hi, Or.inr ⟨hcc, hdel⟩⟩
   | kept =>
-    exact ⟨rfl, fun i hi => S4_shank_complete_good cfg call s hd i hi, Or.inl (by simp [OrigHolds, h0'])⟩
+    refine ⟨rfl, fun i hi => S4_shank_complete_good cfg ob call s hd i hi, Or.inl ⟨by simp, ?_⟩⟩
+    simp only [S4]; split <;> rfl
 
-@[simp] theorem origReadable_T2 (cfg s j) : origReadable (T2 cfg s j) = origReadable s := rfl
-@[simp] theorem origReadable_T3 (cfg s m) : origReadable (T3 cfg s m) = origReadable s := rfl
+/-- NP2.1: disk after `j` `_split2shanks` calls (the lf file was opened by `_prepare_files_NP21`) -/
+def T2 (cfg : Cfg) (ob : Obj) (s : Disk) (j : Nat) : Disk :=
+  { s with lf := { s.lf with bin := written (nproc cfg) j (lfData cfg ob) (!ob.srSorted || j == 0) } }
+/-- … after all windows and `m` `write_meta_data` calls -/
+def T3 (cfg : Cfg) (ob : Obj) (s : Disk) (m : Nat) : Disk :=
+  { T2 cfg ob s (nproc cfg) with lf := { (T2 cfg ob s (nproc cfg)).lf with md := (T2 cfg ob s (nproc cfg)).lf.md || decide (0 < m) } }
+/-- number of `compress_file` calls of `compress_NP21` -/
+def ncall21 (ob : Obj) : Nat := if ob.srForm = .bin then 2 else 1
+/-- … after the metadata and `q` completed `compress_file` calls -/
+def T5 (cfg : Cfg) (ob : Obj) (call : Call) (s : Disk) (q : Nat) : Disk :=
+  let s4 : Disk :=
+    if ob.srForm = .bin then
+      if 0 < q then { T3 cfg ob s 1 with orig := .cbin, och := true, otmp := false } else { T3 cfg ob s 1 with otmp := true }
+    else T3 cfg ob s 1
+  { s4 with lf := compressFileSet call.overwrite (lfData cfg ob) (ncall21 ob - 1) q s4.lf }
+/-- the object after `_prepare_files_NP21` -/
+def P1 (ob : Obj) (call : Call) (s : Disk) : Obj := { ob with alreadyExists := lfExists s && !call.overwrite }
+/-- … after `compress_NP21` with `q` completed calls: the reader follows the compressed original (re-opened sorted) -/
+def P2 (ob : Obj) (call : Call) (s : Disk) (q : Nat) : Obj :=
+  if ob.srForm = .bin ∧ 0 < q then { P1 ob call s with srForm := .cbin, srSorted := true } else P1 ob call s
+
+/-- The ways `_process_NP21` of the object `ob` ends. -/
+inductive Exit21 (cfg : Cfg) (ob : Obj) (call : Call) (s : Disk) : Disk × Obj × Result → Prop
+  | alreadyExists : lfExists s = true → call.overwrite = false → Exit21 cfg ob call s (s, P1 ob call s, .ret 0)
+  | atSplit : (lfExists s = false ∨ call.overwrite = true) →
+      stopAt call.interrupt Point.splitIdx (nproc cfg) < nproc cfg →
+      Exit21 cfg ob call s (T2 cfg ob s (stopAt call.interrupt Point.splitIdx (nproc cfg)), P1 ob call s, .raised .injected)
+  | atMeta : (lfExists s = false ∨ call.overwrite = true) →
+      stopAt call.interrupt Point.metaIdx 1 < 1 →
+      Exit21 cfg ob call s (T3 cfg ob s 0, P1 ob call s, .raised .injected)
+  | plain : (lfExists s = false ∨ call.overwrite = true) → ob.opts.compress = false →
+      Exit21 cfg ob call s (T3 cfg ob s 1, P1 ob call s, .ret 1)
+  | atCompress : (lfExists s = false ∨ call.overwrite = true) → ob.opts.compress = true →
+      stopAt call.interrupt Point.compressIdx (ncall21 ob) < ncall21 ob →
+      Exit21 cfg ob call s (T5 cfg ob call s (stopAt call.interrupt Point.compressIdx (ncall21 ob)),
+        P2 ob call s (stopAt call.interrupt Point.compressIdx (ncall21 ob)), .raised .injected)
+  | compressed : (lfExists s = false ∨ call.overwrite = true) → ob.opts.compress = true →
+      Exit21 cfg ob call s (T5 cfg ob call s (ncall21 ob), P2 ob call s (ncall21 ob), .ret 1)
+
+theorem process21_exit (cfg : Cfg) (ob : Obj) (call : Call) (s : Disk) : Exit21 cfg ob call s (process21 cfg ob call s) := by
+  cases h1 : (lfExists s && !call.overwrite)
+  case true =>
+    have : process21 cfg ob call s = (s, P1 ob call s, .ret 0) := by simp only [process21, h1, P1]; simp
+    rw [this]; simp at h1; exact .alreadyExists h1.1 h1.2
+  have h1' : lfExists s = false ∨ call.overwrite = true := by
+    cases hl : lfExists s <;> cases ho : call.overwrite <;> simp [hl, ho] at h1 ⊢
+  rcases Nat.lt_or_ge (stopAt call.interrupt Point.splitIdx (nproc cfg)) (nproc cfg) with h2 | h2
+  · have : process21 cfg ob call s = (T2 cfg ob s (stopAt call.interrupt Point.splitIdx (nproc cfg)), P1 ob call s, .raised .injected) := by
+      simp only [process21, h1, T2, P1]; simp [h2]
+    rw [this]; exact .atSplit h1' h2
+  have e2 : stopAt call.interrupt Point.splitIdx (nproc cfg) = nproc cfg := by
+    have := stopAt_le call.interrupt Point.splitIdx (nproc cfg); omega
+  rcases Nat.lt_or_ge (stopAt call.interrupt Point.metaIdx 1) 1 with h3 | h3
+  · have e3 : stopAt call.interrupt Point.metaIdx 1 = 0 := by omega
+    have : process21 cfg ob call s = (T3 cfg ob s 0, P1 ob call s, .raised .injected) := by
+      simp only [process21, h1, T2, T3, e2, e3, P1]; simp
+    rw [this]; exact .atMeta h1' h3
+  have e3 : stopAt call.interrupt Point.metaIdx 1 = 1 := by
+    have := stopAt_le call.interrupt Point.metaIdx 1; omega
+  cases hc : ob.opts.compress
+  · have : process21 cfg ob call s = (T3 cfg ob s 1, P1 ob call s, .ret 1) := by
+      simp only [process21, h1, T2, T3, e2, e3, hc, P1]; simp
+    rw [this]; exact .plain h1' hc
+  rcases Nat.lt_or_ge (stopAt call.interrupt Point.compressIdx (ncall21 ob)) (ncall21 ob) with h4 | h4
+  · have : process21 cfg ob call s = (T5 cfg ob call s (stopAt call.interrupt Point.compressIdx (ncall21 ob)),
+        P2 ob call s (stopAt call.interrupt Point.compressIdx (ncall21 ob)), .raised .injected) := by
+      simp only [process21, h1, T2, T3, T5, ncall21, e2, e3, hc, P1, P2] at h4 ⊢; simp [h4]
+    rw [this]; exact .atCompress h1' hc h4
+  have e4 : stopAt call.interrupt Point.compressIdx (ncall21 ob) = ncall21 ob := by
+    have := stopAt_le call.interrupt Point.compressIdx (ncall21 ob); omega
+  have : process21 cfg ob call s = (T5 cfg ob call s (ncall21 ob), P2 ob call s (ncall21 ob), .ret 1) := by
+    simp only [ncall21] at e4
+    simp only [process21, h1, T2, T3, T5, ncall21, e2, e3, hc, e4, P1, P2]; simp
+  rw [this]; exact .compressed h1' hc
 
 theorem origReadable_cases {s : Disk} (h : origReadable s = true) :
     s.orig = .bin ∨ (s.orig ≠ .bin ∧ s.orig = .cbin ∧ s.och = true) := by
   unfold origReadable at h
   split at h <;> simp_all
 
-theorem origReadable_T5 (cfg call s q) (h : origReadable s = true) : origReadable (T5 cfg call s q) = true := by
-  rcases origReadable_cases h with hb | ⟨hb, hc, hch⟩
-  · by_cases hq : 0 < q <;> simp [T5, hb, hq, origReadable, T3, T2]
-  · simp [T5, origReadable, T3, T2, hc, hch]
+theorem origReadable_T5 (cfg ob call s q) (h : origReadable s = true) : origReadable (T5 cfg ob call s q) = true := by
+  by_cases hb : ob.srForm = .bin
+  · by_cases hq : 0 < q <;> simp [T5, hb, hq, origReadable, T3, T2] <;> exact h
+  · simp [T5, hb, origReadable, T3, T2]; exact h
 
 /-- `_process_NP21` never makes the original unreadable (it replaces the `.bin` by `.cbin` + `.ch` at most). -/
-theorem process21_keeps (cfg : Cfg) (call : Call) (s : Disk) (h0 : OrigHolds s) : OrigHolds (process21 cfg call s).1 := by
-  have ex := process21_exit cfg call s
-  generalize process21 cfg call s = r at ex
+theorem process21_keeps (cfg : Cfg) (ob : Obj) (call : Call) (s : Disk) (h0 : OrigHolds s) :
+    OrigHolds (process21 cfg ob call s).1 := by
+  have ex := process21_exit cfg ob call s
+  generalize process21 cfg ob call s = r at ex
   have h0' : origReadable s = true := h0
   cases ex with
-  | atCompress => exact origReadable_T5 _ _ _ _ h0'
-  | compressed => exact origReadable_T5 _ _ _ _ h0'
-  | _ => simp [OrigHolds, *]
+  | atCompress => exact origReadable_T5 _ _ _ _ _ h0'
+  | compressed => exact origReadable_T5 _ _ _ _ _ h0'
+  | _ => exact h0'
 
-theorem process21_shanks (cfg : Cfg) (call : Call) (s : Disk) : (process21 cfg call s).1.shanks = s.shanks := by
-  have ex := process21_exit cfg call s
-  generalize process21 cfg call s = r at ex
+theorem process21_shanks (cfg : Cfg) (ob : Obj) (call : Call) (s : Disk) : (process21 cfg ob call s).1.shanks = s.shanks := by
+  have ex := process21_exit cfg ob call s
+  generalize process21 cfg ob call s = r at ex
   cases ex with
   | atCompress => simp only [T5]; split <;> (try split) <;> rfl
   | compressed => simp only [T5]; split <;> (try split) <;> rfl
   | _ => rfl
 
-theorem process21_rerun_noop (cfg : Cfg) (call : Call) (s : Disk) (h0 : OrigHolds s)
+/-- what `_process_NP21` does to the object: only `already_exists`, and the reader following the compressed original -/
+theorem process21_obj (cfg : Cfg) (ob : Obj) (call : Call) (s : Disk) :
+    (process21 cfg ob call s).2.1.opts = ob.opts ∧ (process21 cfg ob call s).2.1.onShank = ob.onShank ∧
+    (process21 cfg ob call s).2.1.checkCompleted = ob.checkCompleted ∧ (process21 cfg ob call s).2.1.srClosed = ob.srClosed ∧
+    (ob.srForm = s.orig → (process21 cfg ob call s).2.1.srForm = (process21 cfg ob call s).1.orig) := by
+  have ex := process21_exit cfg ob call s
+  generalize process21 cfg ob call s = r at ex
+  cases ex with
+  | atCompress =>
+    by_cases hb : ob.srForm = .bin <;> by_cases hq : 0 < stopAt call.interrupt Point.compressIdx (ncall21 ob) <;>
+      simp [P2, P1, T5, T3, T2, hb, hq] <;> intro h <;> simp_all
+  | compressed =>
+    by_cases hb : ob.srForm = .bin <;> simp [P2, P1, T5, T3, T2, hb, ncall21] <;> intro h <;> simp_all
+  | _ => exact ⟨rfl, rfl, rfl, rfl, fun h => h⟩
+
+theorem process21_rerun_noop (cfg : Cfg) (ob : Obj) (call : Call) (s : Disk)
     (he : s.lf.bin ≠ .absent ∨ s.lf.cbin.isSome = true) (hw : call.overwrite = false) :
-    process21 cfg call s = (s, .ret 0) := by
-  have h0' : origReadable s = true := h0
+    (process21 cfg ob call s).1 = s ∧ (process21 cfg ob call s).2.2 = .ret 0 := by
   have hl : lfExists s = true := by
     simp only [lfExists, Bool.or_eq_true, bne_iff_ne, ne_eq]
     exact he
-  simp [process21, h0', hl, hw]
+  simp [process21, hl, hw]
 
 theorem written_ne_absent (n k d ok) : written n k d ok ≠ .absent := by
   unfold written; split <;> simp
@@ -440,14 +485,12 @@ theorem compressFileSet_exists (ow d idx q f) (h : f.bin ≠ .absent) :
     · left; exact h
     · left; exact h
 
-theorem process21_creates_output (cfg : Cfg) (call : Call) (s : Disk) (h0 : OrigHolds s) :
-    (process21 cfg call s).1.lf.bin ≠ .absent ∨ (process21 cfg call s).1.lf.cbin.isSome = true := by
-  have ex := process21_exit cfg call s
-  generalize process21 cfg call s = r at ex
-  have h0' : origReadable s = true := h0
+theorem process21_creates_output (cfg : Cfg) (ob : Obj) (call : Call) (s : Disk) :
+    (process21 cfg ob call s).1.lf.bin ≠ .absent ∨ (process21 cfg ob call s).1.lf.cbin.isSome = true := by
+  have ex := process21_exit cfg ob call s
+  generalize process21 cfg ob call s = r at ex
   cases ex with
-  | noOriginal h => simp [h] at h0'
-  | alreadyExists _ h _ => simpa [lfExists] using h
+  | alreadyExists h _ => simpa [lfExists] using h
   | atSplit => left; exact written_ne_absent _ _ _ _
   | atMeta => left; exact written_ne_absent _ _ _ _
   | plain => left; exact written_ne_absent _ _ _ _
@@ -460,88 +503,212 @@ theorem process21_creates_output (cfg : Cfg) (call : Call) (s : Disk) (h0 : Orig
     apply compressFileSet_exists
     split <;> (try split) <;> exact written_ne_absent _ _ _ _
 
-theorem process21_completes (cfg : Cfg) (call : Call) (s : Disk) (h0 : OrigHolds s)
+theorem process21_completes (cfg : Cfg) (ob : Obj) (call : Call) (s : Disk) (h0 : OrigHolds s)
+    (hlink : ob.srForm = s.orig) (hsort : ob.srSorted = false)
     (hae : lfExists s = false ∨ call.overwrite = true) (hi : call.interrupt = none) :
-    (process21 cfg call s).2 = .ret 1 ∧
-    FilesComplete call.opts.compress (.good cfg.c) (process21 cfg call s).1.lf ∧
-    (call.opts.compress = true → (process21 cfg call s).1.orig = .cbin ∧ (process21 cfg call s).1.och = true) := by
-  have ex := process21_exit cfg call s
-  generalize process21 cfg call s = r at ex
+    (process21 cfg ob call s).2.2 = .ret 1 ∧
+    FilesComplete ob.opts.compress (.good cfg.c) (process21 cfg ob call s).1.lf ∧
+    (ob.opts.compress = true → (process21 cfg ob call s).1.orig = .cbin ∧ (process21 cfg ob call s).1.och = true) := by
+  have ex := process21_exit cfg ob call s
+  generalize process21 cfg ob call s = r at ex
   have h0' : origReadable s = true := h0
   cases ex with
-  | noOriginal h => simp [h] at h0'
-  | alreadyExists _ h1 h2 => rcases hae with h | h <;> simp_all
-  | atSplit _ _ h => simp [hi] at h
-  | atMeta _ _ h => simp [hi] at h
-  | atCompress _ _ _ h => simp [hi] at h
-  | plain _ _ hc =>
+  | alreadyExists h1 h2 => rcases hae with h | h <;> simp_all
+  | atSplit _ h => simp [hi] at h
+  | atMeta _ h => simp [hi] at h
+  | atCompress _ _ h => simp [hi] at h
+  | plain _ hc =>
     refine ⟨rfl, ?_, by simp [hc]⟩
-    simp [hc, FilesComplete, T3, T2, written]
-  | compressed _ _ hc =>
+    simp [hc, FilesComplete, T3, T2, written, lfData, hsort]
+  | compressed _ hc =>
     refine ⟨rfl, ?_, ?_⟩
-    · rcases origReadable_cases h0' with hb | ⟨hb, _, _⟩ <;>
-        simp [hc, T5, ncall21, hb, FilesComplete, T3, T2, written, compressFileSet]
+    · by_cases hb : ob.srForm = .bin <;>
+        simp [hc, T5, ncall21, hb, FilesComplete, T3, T2, written, compressFileSet, lfData, hsort]
     · intro _
       rcases origReadable_cases h0' with hb | ⟨hb, hcb, hch⟩
-      · simp [T5, ncall21, hb, T3, T2]
-      · simp [T5, T3, T2, hcb, hch]
-
-/-- a call on an already split shank file changes nothing -/
-theorem run_onShank_state (cfg : Cfg) (call : Call) (s : Disk) (h : call.onShank = true) : (run cfg call s).1 = s := by
-  unfold run; simp only [h, if_true]
-  cases cfg.kind <;> simp only [] <;> (try split) <;> rfl
-
-theorem run_np1_state (cfg : Cfg) (call : Call) (s : Disk) (h : cfg.kind = .np1) : (run cfg call s).1 = s := by
-  unfold run; rw [h]
-  split
-  · rfl
-  · simp only []; split <;> rfl
-
-theorem run_np24 (cfg : Cfg) (call : Call) (s : Disk) (h : cfg.kind = .np24) (hs : call.onShank = false) :
-    run cfg call s = process24 cfg call s := by
-  simp [run, h, hs]
-
-theorem run_np21 (cfg : Cfg) (call : Call) (s : Disk) (h : cfg.kind = .np21) (hs : call.onShank = false) :
-    run cfg call s = process21 cfg call s := by
-  simp [run, h, hs]
-
-theorem run_recoverable (cfg : Cfg) (hn : 0 < cfg.n) (call : Call) (s : Disk) (h : Recoverable cfg s) :
-    Recoverable cfg (run cfg call s).1 := by
-  cases hs : call.onShank
-  case true => rw [run_onShank_state cfg call s hs]; exact h
-  cases hk : cfg.kind
-  · rw [run_np24 cfg call s hk hs]; exact process24_recoverable cfg call s hk hn h
-  · rw [run_np21 cfg call s hk hs]
-    rcases h with h | ⟨h, _⟩
-    · exact Or.inl (process21_keeps cfg call s h)
-    · rw [hk] at h; cases h
-  · rw [run_np1_state cfg call s hk]; exact h
-
-theorem runs_recoverable (cfg : Cfg) (hn : 0 < cfg.n) (calls : List Call) :
-    ∀ s, Recoverable cfg s → Recoverable cfg (runs cfg s calls) := by
-  induction calls with
-  | nil => intro s h; exact h
-  | cons c cs ih => intro s h; exact ih _ (run_recoverable cfg hn c s h)
+      · simp [T5, ncall21, hlink, hb, T3, T2]
+      · simp [T5, hlink, T3, T2, hcb, hch]
 
 /-- `_process_NP21` touches the original's data file only by replacing the `.bin` with a published `.cbin` + `.ch`,
 and only when `compress` is set. -/
-theorem process21_orig_change (cfg : Cfg) (call : Call) (s : Disk)
-    (h : (process21 cfg call s).1.orig ≠ s.orig) :
-    s.orig = .bin ∧ (process21 cfg call s).1.orig = .cbin ∧ (process21 cfg call s).1.och = true ∧
-      call.opts.compress = true := by
-  have ex := process21_exit cfg call s
-  generalize process21 cfg call s = r at ex h
+theorem process21_orig_change (cfg : Cfg) (ob : Obj) (call : Call) (s : Disk) (hlink : ob.srForm = s.orig)
+    (h : (process21 cfg ob call s).1.orig ≠ s.orig) :
+    s.orig = .bin ∧ (process21 cfg ob call s).1.orig = .cbin ∧ (process21 cfg ob call s).1.och = true ∧
+      ob.opts.compress = true := by
+  have ex := process21_exit cfg ob call s
+  generalize process21 cfg ob call s = r at ex h
   cases ex with
-  | atCompress _ _ hc =>
-    by_cases hb : s.orig = .bin
-    · by_cases hq : 0 < stopAt call.interrupt Point.compressIdx (ncall21 s)
-      · simp [T5, hb, hq, hc]
+  | atCompress _ hc =>
+    by_cases hb : ob.srForm = .bin
+    · by_cases hq : 0 < stopAt call.interrupt Point.compressIdx (ncall21 ob)
+      · simp [T5, hb, hq, hc, ← hlink]
       · simp [T5, hb, hq, T3, T2] at h
     · simp [T5, hb, T3, T2] at h
-  | compressed _ _ hc =>
-    by_cases hb : s.orig = .bin
-    · simp [T5, hb, ncall21, hc]
+  | compressed _ hc =>
+    by_cases hb : ob.srForm = .bin
+    · simp [T5, hb, ncall21, hc, ← hlink]
     · simp [T5, hb, T3, T2] at h
   | _ => exact absurd rfl h
+
+/-- `process` on the acting object -/
+theorem run_acting (cfg : Cfg) (call : Call) (st : St) (ob : Obj) (h : actingObj cfg call st = some ob) :
+    run cfg call st = (⟨(processObj cfg ob call st.disk).1, some (processObj cfg ob call st.disk).2.1⟩,
+      (processObj cfg ob call st.disk).2.2) := by
+  unfold actingObj at h
+  unfold run
+  cases hr : call.reuse
+  · simp only [hr, Bool.false_eq_true, if_false] at h ⊢
+    cases hc : construct cfg call st.disk with
+    | error e => simp [hc, Except.toOption] at h
+    | ok o => simp [hc, Except.toOption] at h; subst h; rfl
+  · simp only [hr, if_true] at h ⊢
+    rw [h]
+
+/-- no acting object (failed constructor, or nothing to call again): the disk is untouched and the call raises -/
+theorem run_noacting (cfg : Cfg) (call : Call) (st : St) (h : actingObj cfg call st = none) :
+    (run cfg call st).1.disk = st.disk ∧ (∃ e, (run cfg call st).2 = .raised e) ∧
+    ((run cfg call st).1.obj = none) := by
+  unfold actingObj at h
+  unfold run
+  cases hr : call.reuse
+  · simp only [hr, Bool.false_eq_true, if_false] at h ⊢
+    cases hc : construct cfg call st.disk with
+    | error e => exact ⟨rfl, ⟨e, rfl⟩, rfl⟩
+    | ok o => simp [hc, Except.toOption] at h
+  · simp only [hr, if_true] at h ⊢
+    rw [h]; exact ⟨rfl, ⟨_, rfl⟩, h⟩
+
+theorem construct_ok (cfg : Cfg) (call : Call) (s : Disk) (ob : Obj) (h : construct cfg call s = .ok ob) :
+    ob.opts = call.opts ∧ ob.onShank = call.onShank ∧ ob.checkCompleted = false ∧ ob.srClosed = false ∧
+    ob.srSorted = false ∧ (ob.onShank = false → origReadable s = true ∧ ob.srForm = s.orig) ∧
+    (ob.onShank = true → cfg.kind = .np24 ∧ targetComplete s = true) := by
+  unfold construct at h
+  cases hs : call.onShank
+  · simp only [hs, Bool.false_eq_true, if_false] at h
+    cases hr : origReadable s
+    · simp [hr] at h
+    · simp [hr] at h; subst h; simp
+  · simp only [hs, if_true] at h
+    cases hk : cfg.kind <;> simp only [hk] at h
+    · cases ht : targetComplete s
+      · simp [ht] at h
+      · simp [ht] at h; subst h; simp
+    all_goals cases h
+
+theorem acting_fresh (cfg : Cfg) (call : Call) (st : St) (ob : Obj) (hr : call.reuse = false)
+    (h : actingObj cfg call st = some ob) : construct cfg call st.disk = .ok ob := by
+  unfold actingObj at h
+  simp only [hr, Bool.false_eq_true, if_false] at h
+  cases hc : construct cfg call st.disk with
+  | error e => simp [hc, Except.toOption] at h
+  | ok o => simp [hc, Except.toOption] at h; subst h; rfl
+
+/-- the acting object is consistent with the disk -/
+theorem acting_objOk (cfg : Cfg) (call : Call) (st : St) (ob : Obj) (hs : StOk cfg st)
+    (h : actingObj cfg call st = some ob) : ObjOk cfg st.disk ob := by
+  cases hr : call.reuse
+  · obtain ⟨_, _, hcc, hcl, _, hlink, _⟩ := construct_ok cfg call st.disk ob (acting_fresh cfg call st ob hr h)
+    exact ⟨by simp [hcc], fun ho _ => (hlink ho).2, by simp [hcl]⟩
+  · unfold actingObj at h; simp only [hr, if_true] at h; exact hs ob h
+
+theorem processObj_onShank (cfg ob call s) (h : ob.onShank = true) : processObj cfg ob call s = (s, ob, .ret 0) := by
+  simp [processObj, h]
+theorem processObj_np24 (cfg : Cfg) (ob call s) (h : ob.onShank = false) (hk : cfg.kind = .np24) :
+    processObj cfg ob call s = process24 cfg ob call s := by simp [processObj, h, hk]
+theorem processObj_np21 (cfg : Cfg) (ob call s) (h : ob.onShank = false) (hk : cfg.kind = .np21) :
+    processObj cfg ob call s = process21 cfg ob call s := by simp [processObj, h, hk]
+theorem processObj_np1 (cfg : Cfg) (ob call s) (h : ob.onShank = false) (hk : cfg.kind = .np1) :
+    processObj cfg ob call s = (s, ob, .ret (-1)) := by simp [processObj, h, hk]
+
+/-- consistency of the object with the disk is preserved by `process` -/
+theorem processObj_objOk (cfg : Cfg) (ob : Obj) (call : Call) (s : Disk) (h : ObjOk cfg s ob) :
+    ObjOk cfg (processObj cfg ob call s).1 (processObj cfg ob call s).2.1 := by
+  cases ho : ob.onShank
+  case true => rw [processObj_onShank cfg ob call s ho]; exact h
+  cases hk : cfg.kind
+  · rw [processObj_np24 cfg ob call s ho hk]
+    obtain ⟨h1, h2, h3⟩ := h
+    obtain ⟨f1, f2, f3, f4, f5⟩ := process24_flagOk cfg ob call s h1
+    rcases process24_orig cfg ob call s h1 with ⟨a, b, c⟩ | ⟨_, _, _, _, _, a, c, _⟩
+    · refine ⟨f1, fun _ hc => ?_, fun hc => ?_⟩
+      · rw [f4, a]; rw [c] at hc; exact h2 ho hc
+      · rw [c] at hc; rw [a, f3]; exact ⟨hk, ho, (h3 hc).2.2⟩
+    · refine ⟨f1, fun _ hc => ?_, fun _ => ?_⟩
+      · rw [c] at hc; cases hc
+      · rw [f3]; exact ⟨hk, ho, a⟩
+  · rw [processObj_np21 cfg ob call s ho hk]
+    obtain ⟨h1, h2, h3⟩ := h
+    obtain ⟨p1, p2, p3, p4, p5⟩ := process21_obj cfg ob call s
+    refine ⟨fun hc => ?_, fun _ hc => ?_, fun hc => ?_⟩
+    · rw [p1]; rw [p3] at hc; exact h1 hc
+    · rw [p4] at hc; exact p5 (h2 ho hc)
+    · rw [p4] at hc; have := (h3 hc).1; rw [hk] at this; cases this
+  · rw [processObj_np1 cfg ob call s ho hk]; exact h
+
+theorem run_stOk (cfg : Cfg) (call : Call) (st : St) (hs : StOk cfg st) : StOk cfg (run cfg call st).1 := by
+  cases ha : actingObj cfg call st with
+  | none =>
+    obtain ⟨_, _, h3⟩ := run_noacting cfg call st ha
+    intro ob hob; rw [h3] at hob; cases hob
+  | some ob =>
+    rw [run_acting cfg call st ob ha]
+    intro ob' hob'
+    simp only [Option.some.injEq] at hob'
+    subst hob'
+    exact processObj_objOk cfg ob call st.disk (acting_objOk cfg call st ob hs ha)
+
+theorem origHolds_of_eq {s s' : Disk} (h : OrigHolds s) (ho : s'.orig = s.orig) (hc : s'.och = s.och) : OrigHolds s' := by
+  unfold OrigHolds origReadable at *; rw [ho, hc]; exact h
+
+theorem run_recoverable (cfg : Cfg) (hn : 0 < cfg.n) (call : Call) (st : St) (hs : StOk cfg st)
+    (h : Recoverable cfg st.disk) (hx : ¬ Excluded call st) : Recoverable cfg (run cfg call st).1.disk := by
+  cases ha : actingObj cfg call st with
+  | none => rw [(run_noacting cfg call st ha).1]; exact h
+  | some ob =>
+    rw [run_acting cfg call st ob ha]
+    have hok := acting_objOk cfg call st ob hs ha
+    show Recoverable cfg (processObj cfg ob call st.disk).1
+    cases ho : ob.onShank
+    case true => rw [processObj_onShank cfg ob call _ ho]; exact h
+    cases hk : cfg.kind
+    · rw [processObj_np24 cfg ob call _ ho hk]
+      by_cases hoh : OrigHolds st.disk
+      · rcases process24_orig cfg ob call st.disk hok.1 with ⟨a, b, _⟩ | ⟨_, _, _, _, _, _, _, e⟩
+        · exact Or.inl (origHolds_of_eq hoh a b)
+        · right
+          refine ⟨hk, hn, fun i hi => ?_⟩
+          obtain ⟨sh, a, b, _⟩ := e i hi
+          exact ⟨sh, a, b.holds.1, b.holds.2⟩
+      · rcases h with h | ⟨_, _, hsh⟩
+        · exact absurd h hoh
+        · have hw : call.overwrite = false := by
+            cases hr : call.reuse
+            · have := (construct_ok cfg call st.disk ob (acting_fresh cfg call st ob hr ha)).2.2.2.2.2.1 ho
+              exact absurd this.1 hoh
+            · cases hw : call.overwrite
+              · rfl
+              · exact absurd ⟨hr, hw, hoh⟩ hx
+          have he : ∀ i, i < cfg.n → (st.disk.shanks i).isSome = true := by
+            intro i hi; obtain ⟨sh, e, _⟩ := hsh i hi; simp [e]
+          rw [(process24_rerun_noop cfg ob call st.disk hn he hw).1]
+          exact Or.inr ⟨hk, hn, hsh⟩
+    · rw [processObj_np21 cfg ob call _ ho hk]
+      rcases h with h | ⟨h, _⟩
+      · exact Or.inl (process21_keeps cfg ob call _ h)
+      · rw [hk] at h; cases h
+    · rw [processObj_np1 cfg ob call _ ho hk]; exact h
+
+theorem runs_recoverable (cfg : Cfg) (hn : 0 < cfg.n) (calls : List Call) :
+    ∀ st, StOk cfg st → Recoverable cfg st.disk → Allowed cfg st calls → Recoverable cfg (runs cfg st calls).disk := by
+  induction calls with
+  | nil => intro st _ h _; exact h
+  | cons c cs ih =>
+    intro st hs h ha
+    exact ih _ (run_stOk cfg c st hs) (run_recoverable cfg hn c st hs h ha.1) ha.2
+
+theorem runs_stOk (cfg : Cfg) (calls : List Call) : ∀ st, StOk cfg st → StOk cfg (runs cfg st calls) := by
+  induction calls with
+  | nil => intro st h; exact h
+  | cons c cs ih => intro st hs; exact ih _ (run_stOk cfg c st hs)
 
 end IblVerif.Converter
